@@ -5,17 +5,21 @@
      Proofs/EffectLang.v   soundness of the checker, once and for all
      Gen/Effects.v         the bct/ tree translated by harness/translate_effects.py (regenerated every run)
                            + `Example all_safe : prog_safe program = true` (vm_compute)
+     Gen/EffectsNeg.v      the pinned corpus harness/c05_corpus.py (snippets that break the discipline, and controls)
+                           translated by the same translator on every run: the checker must reject / accept them
 
    Only statements here; every proof is `exact <lemma>`.
 
    Reading the statements: object 0 of the heap is numpy's global RandomState, object 1 the generator
-   behind Python's `random` module; `VInt s` is a hashable seed, `VObj o` a RandomState instance;
+   behind Python's `random` module, object 2 the ENVIRONMENT (clock, OS entropy, hash seed, uninitialised
+   memory: what a `NonDet` command reads); `nxt st` is the allocation counter (objects below it exist);
+   `VInt s` is a hashable seed, `VObj o` a RandomState instance;
    `D args` is the oracle standing for all non-random computation of the call (a function of the
    arguments and of the history of draws/decisions so far — see the header of Model/EffectLang.v);
    `observable` = (history of all draws and decisions, final status).  Runs are compared at equal
    fuel; a run that is cut short (out of fuel, exception) is covered as well (truncation semantics). *)
 From Coq Require Import List String Bool Arith.
-From BCT Require Import Model.EffectLang Proofs.EffectLang Gen.Effects.
+From BCT Require Import Model.EffectLang Proofs.EffectLang Gen.Effects Gen.EffectsNeg.
 Import ListNotations.
 
 (* ---- the once-and-for-all soundness theorem of the checker *)
@@ -28,20 +32,23 @@ Theorem C05_seed_safe_sound :
   let run := run_fn gstate next rs_new py_fallback rs_new32 (D args) P fuel f in
   let fresh := mk gstate rs_new py_fallback rs_new32 in
   (* (1) with a seed, numpy's global generator and Python's are left exactly as found *)
-  (forall v st, seed_given v -> 2 <= nxt st ->
+  (forall v st, seed_given v -> 3 <= nxt st -> wf_seed gstate v st ->
      heap (run v st) 0 = heap st 0 /\ heap (run v st) 1 = heap st 1) /\
-  (* (2) equal arguments and seed => equal draws, decisions, outcome — whatever the global generators hold *)
+  (* (2) equal arguments and seed => equal draws, decisions, outcome — whatever the global generators, the
+         environment and the rest of the heap hold *)
   (forall s st1 st2, hist st1 = hist st2 -> status st1 = status st2 ->
      observable (run (VInt s) st1) = observable (run (VInt s) st2)) /\
-  (forall o st1 st2, hist st1 = hist st2 -> status st1 = status st2 -> heap st1 o = heap st2 o ->
+  (forall o st1 st2, hist st1 = hist st2 -> status st1 = status st2 -> o < nxt st1 -> o < nxt st2 ->
+     heap st1 o = heap st2 o ->
      observable (run (VObj o) st1) = observable (run (VObj o) st2)) /\
   (* (3) integer seed == RandomState(seed) *)
-  (forall s o st1 st2, hist st1 = hist st2 -> status st1 = status st2 -> heap st2 o = fresh s ->
+  (forall s o st1 st2, hist st1 = hist st2 -> status st1 = status st2 -> o < nxt st2 -> heap st2 o = fresh s ->
      observable (run (VInt s) st1) = observable (run (VObj o) st2)) /\
   (* (4) without a seed: a function of the arguments and numpy's global generator only *)
-  (forall st1 st2, hist st1 = hist st2 -> status st1 = status st2 -> heap st1 0 = heap st2 0 ->
+  (forall st1 st2, hist st1 = hist st2 -> status st1 = status st2 -> 3 <= nxt st1 -> 3 <= nxt st2 ->
+     heap st1 0 = heap st2 0 ->
      observable (run VNone st1) = observable (run VNone st2)) /\
-  (forall st, 2 <= nxt st -> heap (run VNone st) 1 = heap st 1).
+  (forall st, 3 <= nxt st -> heap (run VNone st) 1 = heap st 1).
 Proof. exact seed_safe_sound. Qed.
 
 (* ---- the same, for the program generated from the current bct/ tree *)
@@ -54,23 +61,32 @@ Proof. exact Effects.get_rng_ok. Qed.
 Theorem C05_bct_no_unmodelled_callables : Effects.unmodelled_callables_with_effects = [].
 Proof. exact Effects.no_unmodelled_effects. Qed.
 
+(* C05_bct below quantifies over every name f; for a name that is not in `program` the run is `Raised` at once and the
+   statement says nothing.  The names it does speak about: every function of bct/ with a seed (incl.
+   nbs_parallel.nbs_bct and its task function) is in `program`, as a Seeded entry *)
+Theorem C05_bct_covers_every_seeded_function :
+  forallb (fun f => match lookup Effects.program f with Some (Seeded, _) => true | _ => false end) Effects.seeded_functions = true.
+Proof. exact Effects.seeded_functions_in_program. Qed.
+
 Theorem C05_bct :
   forall (gstate : Type) (next : gstate -> nat -> nat * gstate)
          (rs_new : nat -> option gstate) (py_fallback : nat -> nat) (rs_new32 : nat -> gstate)
          (A : Type) (D : A -> list ev -> nat) (f : fname) (args : A) (fuel : nat),
   let run := run_fn gstate next rs_new py_fallback rs_new32 (D args) Effects.program fuel f in
   let fresh := mk gstate rs_new py_fallback rs_new32 in
-  (forall v st, seed_given v -> 2 <= nxt st ->
+  (forall v st, seed_given v -> 3 <= nxt st -> wf_seed gstate v st ->
      heap (run v st) 0 = heap st 0 /\ heap (run v st) 1 = heap st 1) /\
   (forall s st1 st2, hist st1 = hist st2 -> status st1 = status st2 ->
      observable (run (VInt s) st1) = observable (run (VInt s) st2)) /\
-  (forall o st1 st2, hist st1 = hist st2 -> status st1 = status st2 -> heap st1 o = heap st2 o ->
+  (forall o st1 st2, hist st1 = hist st2 -> status st1 = status st2 -> o < nxt st1 -> o < nxt st2 ->
+     heap st1 o = heap st2 o ->
      observable (run (VObj o) st1) = observable (run (VObj o) st2)) /\
-  (forall s o st1 st2, hist st1 = hist st2 -> status st1 = status st2 -> heap st2 o = fresh s ->
+  (forall s o st1 st2, hist st1 = hist st2 -> status st1 = status st2 -> o < nxt st2 -> heap st2 o = fresh s ->
      observable (run (VInt s) st1) = observable (run (VObj o) st2)) /\
-  (forall st1 st2, hist st1 = hist st2 -> status st1 = status st2 -> heap st1 0 = heap st2 0 ->
+  (forall st1 st2, hist st1 = hist st2 -> status st1 = status st2 -> 3 <= nxt st1 -> 3 <= nxt st2 ->
+     heap st1 0 = heap st2 0 ->
      observable (run VNone st1) = observable (run VNone st2)) /\
-  (forall st, 2 <= nxt st -> heap (run VNone st) 1 = heap st 1).
+  (forall st, 3 <= nxt st -> heap (run VNone st) 1 = heap st 1).
 Proof.
   intros gstate next rs_new py_fallback rs_new32 A D.
   exact (seed_safe_sound gstate next rs_new py_fallback rs_new32 A D Effects.program Effects.all_safe).
@@ -83,9 +99,9 @@ Theorem C05_refines_reference :
          (rs_new : nat -> option gstate) (py_fallback : nat -> nat) (rs_new32 : nat -> gstate)
          (decide : list ev -> nat) (P : EffectLang.program), prog_safe P = true ->
   forall fuel f k c v (st : state gstate),
-  lookup P f = Some (k, c) -> v <> VBad ->
+  lookup P f = Some (k, c) -> v <> VBad -> wf_seed gstate v st ->
   let g := stream_of gstate rs_new py_fallback rs_new32 v st in
-  let m' := aexec gstate next decide P fuel c (mkA g (hist st) (status st)) in
+  let m' := aexec gstate next rs_new py_fallback rs_new32 decide P fuel c (mkA g (hist st) (status st)) in
   observable (run_fn gstate next rs_new py_fallback rs_new32 decide P fuel f v st) = (ahist m', astatus m') /\
   (forall o, o < nxt st -> target v <> Some o ->
      heap (run_fn gstate next rs_new py_fallback rs_new32 decide P fuel f v st) o = heap st o).
@@ -97,9 +113,23 @@ Example C05_nonvacuous :
   observable (Toy.trun Toy.good 50 "randmio" (VInt 7) Toy.st0)
     = ([EDec 0; EDec 1; EDraw 702; EDec 1; EDec 0; EDraw 701; EDec 0; EDraw 700; EDec 0; EDec 1; EDec 0; EDec 1], Running)
   /\ observable (Toy.trun Toy.good 50 "randmio" (VInt 7) Toy.st0') = observable (Toy.trun Toy.good 50 "randmio" (VInt 7) Toy.st0)
-  /\ observable (Toy.trun Toy.good 50 "randmio" (VObj 2) Toy.st0) = observable (Toy.trun Toy.good 50 "randmio" (VInt 7) Toy.st0)
+  /\ observable (Toy.trun Toy.good 50 "randmio" (VObj 3) Toy.st0) = observable (Toy.trun Toy.good 50 "randmio" (VInt 7) Toy.st0)
   /\ heap (Toy.trun Toy.good 50 "randmio" (VInt 7) Toy.st0) 0 = 0.
 Proof. exact (conj Toy.good_safe Toy.good_nonvacuous). Qed.
+
+(* ---- non-vacuity of the sub-stream rules (the shape of bct.nbs_parallel: task seeds drawn from the rng, every task on its
+        own generator, the task function falling back to a computed number): two tasks draw 0,1 and 400,401 from their own
+        streams, the caller's stream is consumed once; same in another world; same for the object RandomState(7), which
+        is advanced by exactly one draw *)
+Example C05_substream_nonvacuous :
+  prog_safe Toy.par = true /\
+  observable (Toy.trun2 Toy.par 50 "nbs_par" (VInt 7) Toy.st0)
+    = ([EDec 0; EDraw 401; EDec 0; EDraw 400; EDec 0; EDec 4; EDec 3; EDec 1; EDraw 1; EDec 2;
+        EDraw 0; EDec 2; EDec 1; EDec 0; EDec 1; EDraw 700; EDec 1], Running)
+  /\ observable (Toy.trun2 Toy.par 50 "nbs_par" (VInt 7) Toy.st0') = observable (Toy.trun2 Toy.par 50 "nbs_par" (VInt 7) Toy.st0)
+  /\ observable (Toy.trun2 Toy.par 50 "nbs_par" (VObj 3) Toy.st0) = observable (Toy.trun2 Toy.par 50 "nbs_par" (VInt 7) Toy.st0)
+  /\ heap (Toy.trun2 Toy.par 50 "nbs_par" (VInt 7) Toy.st0) 0 = 0 /\ heap (Toy.trun2 Toy.par 50 "nbs_par" (VObj 3) Toy.st0) 3 = 701.
+Proof. exact (conj Toy.par_safe Toy.par_nonvacuous). Qed.
 
 (* ---- the checker's rejections are not gratuitous: for each kind of rejected program the property fails *)
 Theorem C05_stray_global_draw_refuted :       (* one np.random.* call: clause (1) fails *)
@@ -109,7 +139,7 @@ Proof. exact (conj Toy.stray_rejected Toy.stray_refuted). Qed.
 
 Theorem C05_reseeding_refuted :               (* raw seed handed on twice: clause (3) fails *)
   seed_safe Toy.reseed "f" = false /\
-  observable (Toy.trun Toy.reseed 50 "f" (VInt 7) Toy.st0) <> observable (Toy.trun Toy.reseed 50 "f" (VObj 2) Toy.st0).
+  observable (Toy.trun Toy.reseed 50 "f" (VInt 7) Toy.st0) <> observable (Toy.trun Toy.reseed 50 "f" (VObj 3) Toy.st0).
 Proof. exact (conj (proj1 Toy.reseed_rejected) Toy.reseed_refuted). Qed.
 
 Theorem C05_seed_not_forwarded_refuted :      (* nested drawing call without the rng: clause (2) fails *)
@@ -117,13 +147,33 @@ Theorem C05_seed_not_forwarded_refuted :      (* nested drawing call without the
   observable (Toy.trun Toy.forgot 50 "f" (VInt 7) Toy.st0) <> observable (Toy.trun Toy.forgot 50 "f" (VInt 7) Toy.st0').
 Proof. exact (conj Toy.forgot_rejected Toy.forgot_refuted). Qed.
 
+Theorem C05_nondeterminism_refuted :          (* a value read from the environment (time, hash(str), np.empty, rng.seed()): clause (2) fails *)
+  seed_safe Toy.nondet "f" = false /\
+  observable (Toy.trun Toy.nondet 50 "f" (VInt 7) Toy.st0) <> observable (Toy.trun Toy.nondet 50 "f" (VInt 7) Toy.st0').
+Proof. exact (conj Toy.nondet_rejected Toy.nondet_refuted). Qed.
+
+(* ---- the translator is pinned: every negative snippet of harness/c05_corpus.py (module-level alias of np.random, star import,
+        scipy .rvs, np.matlib.rand, aliased bct import called without the seed, rng.seed(), time / hash / id / np.empty /
+        os.urandom / set order, unknown third-party callee, unknown global, caching decorator, multiprocessing misuse, ...),
+        translated by the CURRENT translator together with the current tree, is rejected by the checker; every control is accepted *)
+Theorem C05_translator_corpus :
+  forallb EffectsNeg.present (EffectsNeg.negative_entry_points ++ EffectsNeg.control_entry_points) = true /\
+  forallb (fun f => negb (seed_safe EffectsNeg.corpus f)) EffectsNeg.negative_entry_points = true /\
+  forallb (seed_safe EffectsNeg.corpus) EffectsNeg.control_entry_points = true /\
+  32 <= List.length EffectsNeg.negative_entry_points.
+Proof. exact EffectsNeg.corpus_verdicts. Qed.
+
 Print Assumptions C05_seed_safe_sound.
 Print Assumptions C05_bct_all_safe.
 Print Assumptions C05_bct_get_rng_is_the_one_modelled.
 Print Assumptions C05_bct_no_unmodelled_callables.
 Print Assumptions C05_bct.
+Print Assumptions C05_bct_covers_every_seeded_function.
 Print Assumptions C05_refines_reference.
 Print Assumptions C05_nonvacuous.
+Print Assumptions C05_substream_nonvacuous.
 Print Assumptions C05_stray_global_draw_refuted.
 Print Assumptions C05_reseeding_refuted.
 Print Assumptions C05_seed_not_forwarded_refuted.
+Print Assumptions C05_nondeterminism_refuted.
+Print Assumptions C05_translator_corpus.
